@@ -106,7 +106,7 @@ MUTANTS = [
      """                if let Some(resolved) = type_registry.resolve_grammar_type(&scope, type_ref) {
                     ev.type_ = resolved;
                 }""")]),
-  ("c12-progress-check-only-for-single-item", ["C12", "C10", "C09"], [("src/semantic/semantic_state.rs",
+  ("c12-progress-check-only-for-single-item", ["C12", "C10"], [("src/semantic/semantic_state.rs",
      "            if to_resolve == self.type_registry.unresolved() {",
      "            if to_resolve.len() < 2 && to_resolve == self.type_registry.unresolved() {")]),
   ("c14-root-module-skip-removed", ["C14"], [("src/backends/rust.rs",
